@@ -88,7 +88,9 @@ def same_miss(a, b):
 
 
 def setup(case, with_items, serde_mode=None):
-    env = Env(nservers=case.get("nservers", 1), pieces=case.get("pieces"))
+    hosts = case.get("hosts") or case.get("cfg", {}).get("hosts")      # e.g. host names with capitals
+    addrs = [(h, 11211 + j) for j, h in enumerate(hosts)] if hosts else None
+    env = Env(nservers=case.get("nservers", 1), pieces=case.get("pieces"), addrs=addrs)
     if case.get("coalesce") is False:
         env.net.coalesce = False
     if with_items:
@@ -173,7 +175,10 @@ def check(case):
         if not same_miss(got, miss):
             # a planned fault may turn out harmless (a swallowed close() error, a tampering aimed at a reply that was
             # never produced): then, and only for injected faults, the genuine hit is the right answer
-            if not (ftype in ("fault", "faults") and _equal_hit(got, hit)):
+            # and with the keys spread over several servers of which one fails, the other servers' items are still found
+            partial = (ftype in ("fault", "faults") and kind.startswith("hash") and case.get("nservers", 1) > 1 and isinstance(got, dict)
+                       and isinstance(hit, dict) and type(got) is type(hit) and all(k in hit and _equal_hit({k: v}, {k: hit[k]}) for k, v in got.items()))
+            if not (ftype in ("fault", "faults") and _equal_hit(got, hit)) and not partial:
                 raise Violation(["shape", kind, call["op"]], "returned %s, a miss returns %s (hit would be %s): %s"
                                 % (_show(got, D, C), _show(miss, D, C), _show(hit, D, C), desc))
         # 2b. what a failed multi-key read returns belongs to the caller: filling it in (the cache-aside step) must not
@@ -267,7 +272,10 @@ CALLS = [
     {"op": "gets_many", "keys": ["t", "n", "zz"]},
     {"op": "get_many", "keys": ["t"]},
 ]
-STACKS = [("client", 1, {}), ("pooled", 1, {"max_pool_size": 1}), ("hash", 1, {}), ("hash-pooled", 1, {}), ("hash", 3, {}), ("hash-pooled", 2, {})]
+STACKS = [("client", 1, {}), ("pooled", 1, {"max_pool_size": 1}), ("hash", 1, {}), ("hash-pooled", 1, {}), ("hash", 3, {}), ("hash-pooled", 2, {}),
+          # servers put into rotation at run time through add_server, in its various spellings, host names with capitals
+          ("hash", 1, {"add_at_runtime": 0, "hosts": ["Cache-A"]}), ("hash-pooled", 2, {"add_at_runtime": 1, "hosts": ["Cache-A", "MC.Example.COM"]}),
+          ("hash", 2, {"add_at_runtime": 2, "hosts": ["Cache-A", "mc2"]}), ("hash", 1, {"add_at_runtime": 4, "hosts": ["CACHE"]})]
 
 
 def sweep_cases(tier, seed):
